@@ -228,6 +228,89 @@ def vectors(chk, thorough):
     chk.traces += len(gen.out("CASE"))
 
 
+def output(chk, thorough):
+    """Output.tla: every column of a trajectory row is shown in the unit its slot holds at the time of the call"""
+    from pbv import units as UA
+    from pbv.props import c07
+    m = impl.pb()
+    U = m.Unit
+    cfg, defs = core.consts(dict(MaxOps=2, Candidates=c07.CAND))
+    chk.tlc(core.run_tlc("Output", cfg + "SPECIFICATION Spec\nINVARIANT O_ColumnsTyped\nINVARIANT O_ShownUnitDisplayable\n"
+                         "PROPERTY O_FollowsSlot\nINVARIANT O_TableIsFunction\nINVARIANT O_TableSize\n", defs=defs), "Output")
+    cfg, defs = core.consts(dict(MaxOps=4, Candidates=c07.CAND))
+    gen = core.run_tlc("Gen_Output", cfg + "SPECIFICATION GenSpec\nINVARIANT Emit\n", defs=defs, workers=1,
+                       tags=["BEH", "COLUMNS", "DISPLAY", "PLAIN"], simulate=f"num={30 if thorough else 5}", depth=5, seed=chk.seed + 3)
+    cols, disp, plain = gen.out("COLUMNS")[0], gen.out("DISPLAY")[0], gen.out("PLAIN")[0]
+    disp = {d[0]: (d[1], "".join(chr(c) for c in d[2])) for d in disp}
+    behs = gen.out("BEH")
+    rng = random.Random(chk.seed + 3)
+    rng.shuffle(behs)
+    behs.sort(key=lambda b: -sum(1 for e in b if e["op"]["a"] != "Assign"))
+    n = 300 if thorough else 40
+    behs = behs[: n // 2] + behs[len(behs) // 2: len(behs) // 2 + n // 2]
+    # the display table covers exactly the units of the library
+    if {u.name for u in m.Unit} != set(disp):
+        chk.violation("X.Output.DisplayTableUnits", {"module": "Output"}, {"missing": sorted({u.name for u in m.Unit} ^ set(disp))})
+    for name, (digits, sym) in disp.items():
+        u = UA.unit_enum(name)
+        chk.count(1, ("disp", name))
+        if (u.accuracy, u.symbol) != (digits, sym):
+            chk.violation("X.Output.DisplayEntry", {"module": "Output", "unit": name}, {"got": [u.accuracy, u.symbol], "want": [digits, sym]})
+    # rows: one computed, two synthetic (negative and zero values, a large flag)
+    core.reset_world()
+    calc = m.Calculator(_config={"max_calc_step_size_feet": 2.0})
+    hr = calc.fire(impl.simple_shot(), U.Yard(300), U.Yard(100), extra_data=True)
+    rows = [hr.trajectory[0], hr.trajectory[-1],
+            m.TrajectoryData(time=0.123456, distance=U.Meter(-12.345), velocity=U.MPS(0.0), mach=0.0, height=U.Centimeter(-3.21),
+                          target_drop=U.Inch(0.049), drop_adj=U.Mil(-0.00049), windage=U.Foot(1e-7), windage_adj=U.MOA(359.9996),
+                          look_distance=U.Yard(1e6), angle=U.Degree(-45.00005), density_factor=-0.0123456, drag=0.0004999,
+                          energy=U.Joule(0.5), ogw=U.Kilogram(2.5), flag=11)]
+
+    def fmt_plain(col, v):
+        f = plain[col]
+        return m.TrajFlag.name(v) if f == "name" else f % v
+
+    for bi, b in enumerate(behs):
+        core.reset_world()
+        for step, e in enumerate(b):
+            c07.apply_op(m, e["op"], bi + step)
+            chk.stratum("output_" + e["op"]["a"])
+            row = rows[(bi + step) % len(rows)]
+            o1, o2 = impl.outcome(row.in_def_units), impl.outcome(row.formatted)
+            k = {"module": "Output", "op": e["op"]["a"]}
+            det = {"history": [x["op"] for x in b], "step": step}
+            chk.count(1, ("output", bi, step))
+            if o1[0] != "ok" or o2[0] != "ok" or len(o1[1]) != len(cols) or len(o2[1]) != len(cols):
+                chk.violation("X.Output.Raised", k, {**det, "got": [o1[1] if o1[0] != "ok" else "ok", o2[1] if o2[0] != "ok" else "ok"]})
+                continue
+            for i, (col, dim, slot) in enumerate(cols):
+                v = getattr(row, col)
+                if dim == "":
+                    want_n, want_s = v, fmt_plain(col, v)
+                else:
+                    un = UA.unit_enum(e["shown"][i])
+                    want_n = v >> un
+                    digits, sym = disp[e["shown"][i]]
+                    want_s = f"{want_n:.{digits}f} {sym}"
+                if o1[1][i] != want_n:
+                    chk.violation("X.Output.ColumnNumber", {**k, "column": col}, {**det, "shown_in": e["shown"][i], "got": repr(o1[1][i]), "want": repr(want_n)})
+                if o2[1][i] != want_s:
+                    chk.violation("X.Output.ColumnText", {**k, "column": col}, {**det, "shown_in": e["shown"][i], "got": o2[1][i], "want": want_s})
+            # a quantity's own text: its display unit, the unit's digits and symbol - no preference involved
+            for col, dim, slot in cols[1:3] + cols[6:7]:
+                q = getattr(row, col)
+                for uname in UA.dims()[dim][: (None if thorough else 3)]:
+                    un = UA.unit_enum(uname)
+                    digits, sym = disp[uname]
+                    want = f"{round(q >> un, digits)}{sym}"
+                    got = impl.outcome(lambda: str(un(q)))
+                    if got[0] != "ok" or got[1] != want:
+                        chk.violation("X.Output.QuantityText", {**k, "unit": uname}, {**det, "got": got[1], "want": want})
+        chk.traces += 1
+    core.reset_world()
+    chk.stratum("output")
+
+
 def run(chk: core.Check, replay=None) -> None:
     core.use_repo(hooks=False)
     core.reset_world()
@@ -236,9 +319,10 @@ def run(chk: core.Check, replay=None) -> None:
     results(chk, thorough)
     config_load(chk, thorough)
     vectors(chk, thorough)
-    chk.require_strata(["atmo_SetHumidity", "atmo_Query", "atmo_rejected", "results_flag_names", "results_zeros", "results_no_extra",
+    output(chk, thorough)
+    chk.require_strata(["output", "output_Assign", "output_LoadPreset", "atmo_SetHumidity", "atmo_Query", "atmo_rejected", "results_flag_names", "results_zeros", "results_no_extra",
                         "results_no_zero_rows", "cfgload_ValueError", "cfgload_searched", "cfgload_explicit-file",
                         "cfgload_arguments-applied", "vectors"])
-    chk.rule.append("extra specification modules beyond the listed properties (Atmo, Results, ConfigLoad, VectorAlg), each with TLC design "
+    chk.rule.append("extra specification modules beyond the listed properties (Atmo, Results, ConfigLoad, VectorAlg, Output), each with TLC design "
                     "check and exhaustive / simulated replay into the real code")
-    chk.sample({"modules": ["Atmo", "Results", "ConfigLoad", "VectorAlg"]})
+    chk.sample({"modules": ["Atmo", "Results", "ConfigLoad", "VectorAlg", "Output"]})
